@@ -151,8 +151,10 @@ def gen_cases(tier):
                     cases.append({"tool": tool, "files": [list(a), list(b)], "place": place, "r": r,
                                   "out": "implicit" if (full.index(a) + full.index(b)) % 2 else "explicit"})
         n3 = 3 if tier == "quick" else 4
-        for seq in itertools.product(core, repeat=3):
+        for seq in itertools.product(core if tier == "quick" else full, repeat=3):
             cases.append({"tool": tool, "files": [list(k) for k in seq], "place": "tst", "r": True, "out": "implicit"})
+            if tier == "thorough" and all(k in core for k in seq):
+                cases.append({"tool": tool, "files": [list(k) for k in seq], "place": "sst", "r": False, "out": "explicit"})
         if tier == "thorough":
             for seq in itertools.product(core[:6] + core[6:8], repeat=4):
                 if sum(1 for k in seq if k[0] in BAD) != 1:
